@@ -723,10 +723,19 @@ def run_named_mps(case):
             raise Violation("bond-dim", **info)
         nv = float(np.linalg.norm(v))
         e = 0.0
-        if norm and nv > 0:
+        if norm:
+            # the same draw without normalisation: must be the same ray; (rademacher / translation invariant draws can
+            # cancel to an exactly zero state, which cannot be normalised: rejected)
+            raw = qtn.MPS_rand_state(L, case["bond"], **dict(kw, normalize=False))
+            vr = dense_vec(raw, sites, **info)
+            magr = float(np.prod([max(float(np.linalg.norm(np.asarray(t.data).ravel())), 1e-300) for t in raw]))
+            if float(np.linalg.norm(vr)) <= 1e-6 * magr:
+                raise Reject("numerically zero random state")
+            itol = INV32 if single(dt) else INV64
             e = abs(nv - 1.0)
-            if not e <= (INV32 if single(dt) else INV64):
+            if not e <= itol:
                 raise Violation("rand-not-normalized", norm=nv, **info)
+            e = max(e, close(v, vr / np.linalg.norm(vr), itol, magr / float(np.linalg.norm(vr)), reason="rand-normalized-ray", **info))
         if norm in ("left", "right") and L >= 2:
             d = canon_defects(psi, L, L - 1 if norm == "left" else 0)
             if not d <= (INV32 if single(dt) else 1e-8):
@@ -830,10 +839,17 @@ def run_named_mpo(case):
         check_dtype(X, dt, **info)
         cls += ["herm" if herm else "nonherm", "normalize" if case["normalize"] else "raw"]
         nf = float(np.linalg.norm(M))
-        if case["normalize"] and nf > 0:
+        if case["normalize"]:
+            raw = (qtn.MPO_rand if w == "rand" else qtn.MPO_rand_herm)(L, case["bond"], **dict(kw, normalize=False))
+            Mr = dense_op(raw, sites, **info)
+            magr = float(np.prod([max(float(np.linalg.norm(np.asarray(t.data).ravel())), 1e-300) for t in raw]))
+            if float(np.linalg.norm(Mr)) <= 1e-6 * magr:
+                raise Reject("numerically zero random operator")
+            itol = INV32 if single(dt) else INV64
             e = abs(nf - 1.0)
-            if not e <= (INV32 if single(dt) else INV64):
+            if not e <= itol:
                 raise Violation("rand-not-normalized", norm=nf, **info)
+            e = max(e, close(M, Mr / np.linalg.norm(Mr), itol, magr / float(np.linalg.norm(Mr)), reason="rand-normalized-ray", **info))
         if herm:
             e = max(e, close(M, M.conj().T, tol * 10, float(np.linalg.norm(M)), reason="rand-not-hermitian", **info))
         for i in range(L):
@@ -1407,6 +1423,496 @@ def run_transpose(case):
             "cls": chain_classes(da) + ["route=" + route, f"nsys={len(sysa)}"], "err": e}
 
 
+# ---------------------------------------------------------------------------
+# 9. 1D compression: every registered method through the dispatcher
+# ---------------------------------------------------------------------------
+
+M_DET = ["direct", "dm", "zipup", "zipup-first", "zipup-oversample", "sdc", "sdc-oversample"]
+M_RAND = ["src", "src-first", "src-oversample", "srcmps", "srcmps-first", "srcmps-oversample"]
+M_FIT = ["fit", "fit-zipup", "fit-projector", "fit-oversample"]
+M_AG = ["local-early", "local-late", "projector", "su", "superorthogonal", "l2bp"]
+M_1D = M_DET + M_RAND + M_FIT
+NEED_CAP = set(M_RAND + M_FIT + ["sdc-oversample"])
+
+
+def registry_names():
+    from quimb.tensor.tn1d.compress import _TN1D_COMPRESS_METHODS
+    from quimb.tensor.tnag.compress import _TNAG_COMPRESS_METHODS
+
+    return sorted(_TN1D_COMPRESS_METHODS), sorted(_TNAG_COMPRESS_METHODS)
+
+
+@st.composite
+def s_layers(draw, kinds=("mps", "mpo", "mpo-mps", "mpo-mps", "mpo-mpo", "mpo-mpo-mps"), Lmin=2, Lmax=6, max_bond=3):
+    """an open chain plus 0-2 operator layers stacked lazily on top of it (1-3 tensors per site)"""
+    kind = draw(st.sampled_from(kinds))
+    base_op = kind in ("mpo", "mpo-mpo")
+    x = draw(chains(op=base_op, Lmin=Lmin, Lmax=5 if base_op else Lmax, maxD=32 if base_op else 256, cyclic=False, dtypes=A.DTYPES64,
+                    kinds=KINDS_WELL, max_bond=max_bond, phys=(2, 2, 2, 3, 1)))
+    nl = {"mps": 0, "mpo": 0, "mpo-mps": 1, "mpo-mpo": 1, "mpo-mpo-mps": 2}[kind]
+    layers = [draw(partner(x, op=True, kinds=KINDS_WELL, max_bond=2)) for _ in range(nl)]
+    return {"kind": kind, "x": x, "layers": layers}
+
+
+def build_layers(inp):
+    """(lazy quimb network, site list, per-bond structural rank bound)"""
+    x, _, _ = chain(inp["x"])
+    tn = x
+    for ld in inp["layers"]:
+        Aop, _, _ = chain(ld)
+        tn = Aop.apply(tn, contract=False)
+    L = inp["x"]["L"]
+    ph = inp["x"]["phys"]
+    sd = [p * p if inp["x"]["op"] else p for p in ph]  # outer dimension per site
+    chi = []
+    for k in range(L - 1):
+        b = inp["x"]["bonds"][k]
+        for ld in inp["layers"]:
+            b *= ld["bonds"][k]
+        chi.append(min(b, prod(sd[: k + 1]), prod(sd[k + 1:])))
+    return tn, list(range(L)), chi, sd
+
+
+def struct_bonds(inp):
+    """per bond: product of the layers' bond dimensions (what a site-wise contraction produces before any reduction)"""
+    out = []
+    for k in range(inp["x"]["L"] - 1):
+        b = inp["x"]["bonds"][k]
+        for ld in inp["layers"]:
+            b *= ld["bonds"][k]
+        out.append(b)
+    return out
+
+
+def site_tensor(M, inp):
+    """dense value with one axis per site (operator: upper,lower of a site fused)"""
+    ph = inp["x"]["phys"]
+    L = len(ph)
+    if inp["x"]["op"]:
+        t = np.asarray(M).reshape(list(ph) + list(ph))
+        perm = [j for i in range(L) for j in (i, L + i)]
+        return t.transpose(perm).reshape([p * p for p in ph])
+    return np.asarray(M).reshape(list(ph))
+
+
+def unfold_svals(T):
+    sh = T.shape
+    return [np.linalg.svd(T.reshape(prod(sh[:k]), -1), compute_uv=False) for k in range(1, len(sh))]
+
+
+def out_bonds(r, L, **info):
+    out = []
+    for i in range(L - 1):
+        b = bond_inds(r, i, i + 1)
+        if len(b) > 1:
+            raise Violation("multi-bond-output", site=i, **info)
+        out.append(int(r.ind_size(b[0])) if b else 1)
+    return out
+
+
+def check_one_per_site(r, L, **info):
+    if r.num_tensors != L:
+        raise Violation("not-one-tensor-per-site", got=int(r.num_tensors), want=L, **info)
+    for ix, tids in r.ind_map.items():
+        if len(tids) == 2:
+            ss = sorted(i for tid in tids for i in range(L) if r.site_tag_id.format(i) in r.tensor_map[tid].tags)
+            if len(ss) != 2 or ss[1] - ss[0] != 1:
+                raise Violation("not-a-chain", sites=ss, **info)
+
+
+@st.composite
+def s_compress(draw, tier):
+    inp = draw(s_layers())
+    method = draw(st.sampled_from(M_1D + M_1D + M_AG))
+    return {"inp": inp, "method": method, "reverse": draw(st.booleans()), "canonize": draw(st.integers(0, 3)) > 0,
+            "cap": draw(st.sampled_from(["exact", "exact", "below", "below", "none"])), "extra": draw(st.integers(0, 2)),
+            "below": draw(st.integers(0, 10**6)), "cutoff": draw(st.sampled_from(["0", "0", "0", "default", "1e-3"])),
+            "permute": draw(st.booleans()), "inplace": draw(st.booleans()), "normalize": draw(st.integers(0, 4)) == 0,
+            "equalize": draw(st.sampled_from([False, False, False, True, 1.0])), "seed": draw(st.integers(0, 2**31 - 1)),
+            "iters": draw(st.sampled_from([None, None, 5, 6])), "give_tags": draw(st.booleans()),
+            "over": draw(st.sampled_from([None, "struct", "struct", "1.5"]))}
+
+
+def compress_expectations(method, reverse, iters, L):
+    """index of the promised canonical centre (None: no promise)"""
+    if method in M_AG:
+        return None
+    centre_first = True  # 'right canonical', centre at site_tags[0]
+    if method == "fit" and iters is not None and iters % 2 == 1:
+        centre_first = False  # documented: the centre follows the last sweep ('R' ends at site_tags[-1])
+    if reverse:
+        centre_first = not centre_first
+    return 0 if centre_first else L - 1
+
+
+def run_compress(case):
+    from quimb.tensor.tn1d.compress import tensor_network_1d_compress
+
+    inp, method = case["inp"], case["method"]
+    tn, sites, chi, sd = build_layers(inp)
+    L = len(sites)
+    ref = dense_any(tn, sites)
+    nref = float(np.linalg.norm(ref))
+    if nref == 0.0:
+        raise Reject("zero input")
+    need = max(chi) if chi else 1
+    if case["cap"] == "exact":
+        cap = need + case["extra"]
+    elif case["cap"] == "below":
+        if need <= 1:
+            cap = 1
+        else:
+            cap = 1 + case["below"] % (need - 1)
+    else:
+        cap = None
+    cutoff = {"0": 0.0, "default": None, "1e-3": 1e-3}[case["cutoff"]]
+    kw = dict(method=method, max_bond=cap, sweep_reverse=case["reverse"], canonize=case["canonize"], permute_arrays=case["permute"],
+              inplace=case["inplace"], equalize_norms=case["equalize"])
+    if cutoff is not None:
+        kw["cutoff"] = cutoff
+    if method not in M_AG:
+        kw["normalize"] = case["normalize"]
+    normalize = bool(kw.get("normalize"))
+    if method in M_RAND or method in ("fit", "fit-oversample"):
+        kw["seed"] = case["seed"]
+    iters = case["iters"] if method == "fit" else None
+    if iters is not None:
+        kw["max_iterations"] = iters
+    if case["give_tags"]:
+        kw["site_tags"] = [tn.site_tag_id.format(i) for i in sites]
+    struct = max(struct_bonds(inp) + [1])
+    over_eff = None
+    if method.endswith("-first") or method.endswith("-oversample"):
+        if case["over"] == "struct":
+            over_eff = kw["max_bond_oversample"] = max(struct, cap or 1) + case["extra"]
+        elif case["over"] == "1.5" and cap is not None:
+            kw["max_bond_oversample"] = 1.5
+            over_eff = round(1.5 * cap)
+        elif cap is not None:
+            over_eff = 2 * cap if method.startswith("zipup") else max(round(1.5 * cap), cap + 10)  # documented defaults
+    info = dict(method=method, input=inp["kind"], reverse=case["reverse"], cap=case["cap"], cutoff=case["cutoff"],
+                canonize=case["canonize"], equalize=str(case["equalize"]), normalize=normalize)
+    f0 = fingerprint(tn)
+    # contract: methods that need an explicit bond dimension refuse None (ValueError; TypeError for srcmps);
+    # 1-site fitting refuses a non-zero cutoff
+    with rejecting(ValueError, TypeError, tag="refused:"):
+        r = tensor_network_1d_compress(tn, **kw)
+    if cap is None and method in NEED_CAP and not (method in M_FIT and cutoff != 0.0 and method == "fit"):
+        pass  # (some of these accept None after all, e.g. 2-site fit with a cutoff: fine either way)
+    if case["inplace"]:
+        if r is not tn:
+            # the receiver must at least denote the compressed network
+            close(dense_any(tn, sites, **info), dense_any(r, sites, **info), EXACT64, nref, reason="inplace-receiver", **info)
+    else:
+        untouched(tn, f0, "input-mutated", **info)
+    if type(r) is not type(tn):
+        raise Violation("result-type", got=type(r).__name__, want=type(tn).__name__, **info)
+    check_one_per_site(r, L, **info)
+    bonds = out_bonds(r, L, **info)
+    # (ii) the cap
+    if cap is not None and max(bonds + [1]) > cap:
+        raise Violation("bond-cap", got=max(bonds), cap=cap, **info)
+    got = dense_any(r, sites, **info)
+    if not np.all(np.isfinite(got)):
+        raise Violation("non-finite-output", **info)
+    want = ref / nref if normalize else ref
+    dist = float(np.linalg.norm(got - want))
+    scale = 1.0 if normalize else nref
+    # "nothing needs truncating" (sound per method):
+    #  * methods that truncate in a true canonical gauge (direct, dm, sdc, src*, fit*, AG with canonisation): cap >= rank
+    #  * zip-up truncates in the per-layer 'pseudo-canonical' gauge (documented as less accurate): only a cap that covers
+    #    the product of the layers' bonds truncates nothing; same for its oversampled first stage
+    #  * canonize=False (where it is honoured): truncations happen in the given gauge: cap >= product of the layers' bonds
+    honours_canonize = method in ("direct", "zipup", "zipup-first", "zipup-oversample") or method in M_AG or method in M_RAND or \
+        method in ("sdc", "sdc-oversample", "fit-zipup", "fit-projector", "fit-oversample")
+    #  * the forwarded arbitrary-geometry methods gauge only locally (default distance 3; 'local-early' is documented as a
+    #    generalised zip-up): same rule as zip-up
+    need_m = need
+    if method == "zipup" or method in M_AG or (not case["canonize"] and honours_canonize):
+        need_m = max(need, struct)
+    exact_expected = cutoff == 0.0 and (cap is None or cap >= need_m)
+    if exact_expected and method in ("zipup-first", "zipup-oversample") and over_eff is not None and over_eff < struct:
+        exact_expected = False
+    if method in M_DET:
+        tol = 1e-8
+    else:
+        tol = INV64
+    e = 0.0
+    truncated = any(b < c for b, c in zip(bonds, chi))
+    # (i) nothing needs truncating => reproduces the input
+    if exact_expected:
+        e = dist / scale
+        if not e <= tol:
+            raise Violation("not-exact", err=e, tol=tol, **info)
+    if normalize:
+        n1 = abs(float(np.linalg.norm(got)) - 1.0)
+        if not n1 <= 1e-8:
+            raise Violation("not-normalized", err=n1, **info)
+    # (iii) promised canonical form
+    centre = compress_expectations(method, case["reverse"], iters, L)
+    if centre is not None and L >= 2:
+        if case["equalize"] is not False and not normalize:
+            pass  # equalising norms rescales every tensor: isometries only up to a factor (not promised)
+        else:
+            d = canon_defects(r, L, centre)
+            if not d <= 1e-7:
+                raise Violation("not-canonical", defect=d, centre=centre, **info)
+            e = max(e, d)
+    # (iv) direct: a-priori bound from the unfoldings of the dense input and the returned bond sizes
+    if method == "direct" and case["canonize"] and not normalize:
+        sv = unfold_svals(site_tensor(ref, inp))
+        bound = math.sqrt(sum(float(np.sum(s[b:] ** 2)) for s, b in zip(sv, bonds)))
+        if not dist <= bound * (1 + 1e-9) + 1e-9 * nref:
+            raise Violation("direct-error-bound", dist=dist, bound=bound, norm=nref, **info)
+    # permute_arrays=True on an MPS/MPO: default stored order
+    if case["permute"] and L >= 2 and len(inp["layers"]) == 0:
+        for i in sites:
+            t = r[r.site_tag_id.format(i)]
+            phys = [ix for ix in t.inds if ix in r.outer_inds()]
+            if list(t.inds[-len(phys):]) != phys or (0 < i < L - 1 and t.inds[0] not in bond_inds(r, i, i - 1)):
+                raise Violation("permute-arrays-order", site=i, **info)
+    cls = ["method=" + method, "input=" + inp["kind"], "cap=" + case["cap"], "cutoff=" + case["cutoff"], f"L={L}",
+           "reverse" if case["reverse"] else "forward", "truncated" if truncated else "untruncated"] + \
+          (["exact-checked"] if exact_expected else []) + (["normalize"] if normalize else []) + \
+          (["equalize=" + str(case["equalize"])] if case["equalize"] is not False else []) + ([] if case["canonize"] else ["canonize=False"])
+    return {"nt": L >= 3 and (truncated or len(inp["layers"]) >= 1 or len(set(inp["x"]["phys"])) > 1), "cls": cls, "err": e}
+
+
+def enum_registry(tier):
+    yield {"check": "registry"}
+
+
+def run_registry(case):
+    """the method lists this module samples from are exactly the registered names (so a newly registered
+    method cannot go untested silently)"""
+    one, ag = registry_names()
+    if sorted(M_1D) != one or sorted(M_AG) != ag:
+        raise Violation("registry-drift", missing_1d=sorted(set(one) - set(M_1D)), missing_ag=sorted(set(ag) - set(M_AG)),
+                        stale=sorted((set(M_1D) | set(M_AG)) - set(one) - set(ag)))
+    return {"nt": True, "cls": ["registry"], "err": 0.0, "n": len(one) + len(ag), "nt_n": len(one) + len(ag)}
+
+
+# ---------------------------------------------------------------------------
+# 10. the direct method's error bound, searched on its own
+# ---------------------------------------------------------------------------
+
+CUT_MODES = ["abs", "rel", "sum2", "rsum2", "sum1", "rsum1"]
+
+
+@st.composite
+def s_direct(draw, tier):
+    inp = draw(s_layers(kinds=("mps", "mps", "mpo", "mpo-mps", "mpo-mpo"), Lmin=3, Lmax=7, max_bond=4))
+    return {"inp": inp, "reverse": draw(st.booleans()), "how": draw(st.sampled_from(["cap", "cap", "cutoff", "both"])),
+            "below": draw(st.integers(0, 10**6)), "cutoff": draw(st.sampled_from([1e-1, 3e-2, 1e-2, 1e-3, 1e-6])),
+            "mode": draw(st.sampled_from(CUT_MODES)), "via": draw(st.sampled_from(["dispatcher", "dispatcher", "function", "gate_with_mpo"])),
+            "scale": draw(st.sampled_from([1.0, 1.0, 1e-6, 1e5]))}
+
+
+def run_direct(case):
+    from quimb.tensor.tn1d.compress import tensor_network_1d_compress, tensor_network_1d_compress_direct
+
+    inp = case["inp"]
+    tn, sites, chi, sd = build_layers(inp)
+    L = len(sites)
+    if case["scale"] != 1.0:
+        tn = tn.multiply(case["scale"], spread_over=1)
+    ref = dense_any(tn, sites)
+    nref = float(np.linalg.norm(ref))
+    if nref == 0.0:
+        raise Reject("zero input")
+    need = max(chi)
+    kw = {}
+    how = case["how"]
+    if how in ("cap", "both"):
+        kw["max_bond"] = 1 + case["below"] % max(need - 1, 1)
+    if how in ("cutoff", "both"):
+        kw["cutoff"] = case["cutoff"] * (nref if case["mode"] in ("abs",) else nref**2 if case["mode"] == "sum2" else nref if case["mode"] == "sum1" else 1.0)
+        kw["cutoff_mode"] = case["mode"]
+    else:
+        kw["cutoff"] = 0.0
+    kw["sweep_reverse"] = case["reverse"]
+    info = dict(how=how, mode=case["mode"] if how != "cap" else "-", reverse=case["reverse"], via=case["via"], input=inp["kind"])
+    via = case["via"]
+    if via == "gate_with_mpo" and inp["kind"] != "mpo-mps":
+        via = "dispatcher"
+    if via == "dispatcher":
+        r = tensor_network_1d_compress(tn, method="direct", **kw)
+    elif via == "function":
+        r = tensor_network_1d_compress_direct(tn, **kw)
+    else:
+        x, _, _ = chain(inp["x"])
+        Aop, _, _ = chain(inp["layers"][0])
+        if case["scale"] != 1.0:
+            x = x.multiply(case["scale"], spread_over=1)
+        r = x.gate_with_mpo(Aop, method="direct", **kw)
+    check_one_per_site(r, L, **info)
+    bonds = out_bonds(r, L, **info)
+    if "max_bond" in kw and max(bonds) > kw["max_bond"]:
+        raise Violation("bond-cap", got=max(bonds), cap=kw["max_bond"], **info)
+    got = dense_any(r, sites, **info)
+    dist = float(np.linalg.norm(got - ref))
+    sv = unfold_svals(site_tensor(ref, inp))
+    bound = math.sqrt(sum(float(np.sum(s[b:] ** 2)) for s, b in zip(sv, bonds)))
+    if not dist <= bound * (1 + 1e-9) + 1e-9 * nref:
+        raise Violation("direct-error-bound", dist=dist, bound=bound, norm=nref, **info)
+    d = canon_defects(r, L, L - 1 if case["reverse"] else 0)
+    if not d <= 1e-7:
+        raise Violation("not-canonical", defect=d, **info)
+    truncated = any(b < c for b, c in zip(bonds, chi))
+    # (a harness self-test: no network with these bond sizes can beat the best single-cut approximation)
+    lower = max([math.sqrt(float(np.sum(s[b:] ** 2))) for s, b in zip(sv, bonds)] + [0.0])
+    if dist < lower * (1 - 1e-6) - 1e-9 * nref:
+        raise AssertionError(f"harness: distance {dist} below the Eckart-Young lower bound {lower}")
+    return {"nt": truncated, "cls": ["input=" + inp["kind"], "how=" + how, f"L={L}", "via=" + via, "truncated" if truncated else "untruncated",
+                                     "mode=" + info["mode"], "tight" if bound > 0 and dist > 0.5 * bound else "slack"],
+            "err": (dist / bound) if bound > 1e-9 * nref else 0.0}
+
+
+# ---------------------------------------------------------------------------
+# 11. the chain's own compression sweeps
+# ---------------------------------------------------------------------------
+
+@st.composite
+def s_flat(draw, tier):
+    op = draw(st.integers(0, 2)) == 0
+    x = draw(chains(op=op, Lmin=2, Lmax=5 if op else 7, maxD=32 if op else 256, cyclic=False, dtypes=A.DTYPES64, kinds=KINDS_WELL, max_bond=5))
+    L = x["L"]
+    return {"x": x, "route": draw(st.sampled_from(["compress", "compress", "compress", "left_compress", "right_compress", "compress_site",
+                                                   "compress_site", "add_compress", "apply_compress"])),
+            "form": draw(st.sampled_from([None, "left", "right", "flat", "int"])), "centre": draw(st.integers(0, L - 1)),
+            "cap": draw(st.sampled_from(["exact", "exact", "below", "none"])), "below": draw(st.integers(0, 10**6)),
+            "cutoff": draw(st.sampled_from(["0", "0", "default", "1e-3"])), "inflate": draw(st.integers(0, 2)) > 0,
+            "y": draw(partner(x, kinds=KINDS_WELL)),
+            "A": draw(partner(x, op=True, kinds=KINDS_WELL, max_bond=2))}
+
+
+def inflate_bonds(desc, arrs, seed):
+    """the same chain with every bond padded by a random gauge pair G (b x b'), pinv(G) (b' x b), b' = b + 1..3: the
+    bond dimensions grow, the value and every bipartition rank stay (open chains)"""
+    rng = np.random.default_rng(seed)
+    L = desc["L"]
+    lay = chain_layout(desc)
+    out = [np.array(a, dtype=np.complex128 if "complex" in desc["dtype"] else np.float64) for a in arrs]
+    new_bonds = list(desc["bonds"])
+    for k in range(L - 1):
+        b = desc["bonds"][k]
+        b2 = b + int(rng.integers(1, 4))
+        G = rng.normal(size=(b, b2))
+        Gp = np.linalg.pinv(G)
+        ax_r = lay[k][2].index("r")
+        ax_l = lay[k + 1][2].index("l")
+        out[k] = np.moveaxis(np.tensordot(out[k], G, axes=(ax_r, 0)), -1, ax_r)
+        out[k + 1] = np.moveaxis(np.tensordot(Gp, out[k + 1], axes=(1, ax_l)), 0, ax_l)
+        new_bonds[k] = b2
+    return out, new_bonds
+
+
+def run_flat(case):
+    dx = dict(case["x"])
+    op, L = dx["op"], dx["L"]
+    route = case["route"]
+    sd = [p * p if op else p for p in dx["phys"]]
+    rank_bound = [min(prod(sd[: k + 1]), prod(sd[k + 1:])) for k in range(L - 1)]
+    arrs = chain_arrays(dx)
+    rx, mx = chain_dense(dx, arrs)
+    cur_bonds = list(dx["bonds"])
+    if case["inflate"]:
+        arrs, cur_bonds = inflate_bonds(dx, arrs, dx["seed"])
+    x = build_chain(dx, arrs)
+    if route == "add_compress":
+        y, ry, my = chain(case["y"])
+        ref = rx + ry
+        chi = [min(a + b, r) for a, b, r in zip(dx["bonds"], case["y"]["bonds"], rank_bound)]
+    elif route == "apply_compress":
+        Aop, MA, mA = chain(case["A"])
+        ref = MA @ rx
+        chi = [min(a * b, r) for a, b, r in zip(dx["bonds"], case["A"]["bonds"], rank_bound)]
+    else:
+        ref = rx
+        chi = [min(a, r) for a, r in zip(dx["bonds"], rank_bound)]
+    nref = float(np.linalg.norm(ref))
+    if nref <= 1e-9 * mx or float(np.linalg.norm(rx)) == 0:
+        raise Reject("(nearly) zero state")
+    need = max(chi)
+    if case["cap"] == "exact":
+        cap = need
+    elif case["cap"] == "below":
+        cap = 1 + case["below"] % max(need - 1, 1)
+    else:
+        cap = None
+    cutoff = {"0": 0.0, "default": None, "1e-3": 1e-3}[case["cutoff"]]
+    kw = {}
+    if cap is not None:
+        kw["max_bond"] = cap
+    if cutoff is not None:
+        kw["cutoff"] = cutoff
+    form = case["form"]
+    fval = case["centre"] if form == "int" else form
+    info = dict(route=route, op=op, form=str(form), cap=case["cap"], cutoff=case["cutoff"])
+    sites = list(range(L))
+    centre = None
+    if route == "compress":
+        res = x.compress(fval, **kw) if fval is not None else x.compress(**kw)
+        if res is not None:
+            raise Violation("compress-returned", **info)
+        r = x
+        centre = {None: 0, "right": 0, "left": L - 1, "flat": None, "int": case["centre"]}[form]
+    elif route == "left_compress":
+        x.left_compress(**kw)
+        r, centre = x, L - 1
+    elif route == "right_compress":
+        x.right_compress(**kw)
+        r, centre = x, 0
+    elif route == "compress_site":
+        i = case["centre"]
+        x.compress_site(i, **kw)
+        r, centre = x, i
+    elif route == "add_compress":
+        r = (x.add_MPO if op else x.add_MPS)(y, compress=True, **({"form": fval} if fval is not None else {}), **kw)
+        centre = {None: 0, "right": 0, "left": L - 1, "flat": None, "int": case["centre"]}[form]
+    else:
+        r = Aop.apply(x, compress=True, **({"form": fval} if fval is not None else {}), **kw)
+        centre = {None: 0, "right": 0, "left": L - 1, "flat": None, "int": case["centre"]}[form]
+    check_one_per_site(r, L, **info)
+    bonds = out_bonds(r, L, **info)
+    if route == "compress_site":
+        i = case["centre"]
+        adj = [bonds[k] for k in (i - 1, i) if 0 <= k < L - 1]
+        if cap is not None and adj and max(adj) > cap:
+            raise Violation("bond-cap", got=max(adj), cap=cap, **info)
+    elif cap is not None and max(bonds) > cap:
+        raise Violation("bond-cap", got=max(bonds), cap=cap, **info)
+    got = dense_any(r, sites, **info)
+    dist = float(np.linalg.norm(got - ref))
+    e = 0.0
+    # "nothing needs truncating": sweeps that canonicalise first are exact as soon as the cap reaches the rank; the bare
+    # one-directional sweeps (and form='flat') SVD one tensor at a time (documented: optimal only next to isometries),
+    # so for them only "cap >= every current bond dimension" means that nothing is truncated
+    canonicalising = route in ("add_compress", "apply_compress", "compress_site") or (route == "compress" and form != "flat")
+    if route in ("add_compress", "apply_compress") and form == "flat":
+        canonicalising = False
+    need_here = need if canonicalising else max(cur_bonds[: L - 1]) * (max(case["A"]["bonds"]) if route == "apply_compress" else 1) + \
+        (max(case["y"]["bonds"]) if route == "add_compress" else 0)
+    exact_expected = cutoff == 0.0 and (cap is None or cap >= need_here)
+    info["inflated"] = bool(case["inflate"])
+    if exact_expected:
+        e = dist / nref
+        if not e <= 1e-8:
+            raise Violation("not-exact", err=e, **info)
+    # promised form. (left/right_compress alone only promise isometries; a sweep over an un-canonicalised chain
+    # truncates sub-optimally, which the property does not exclude)
+    if centre is not None:
+        d = canon_defects(r, L, centre)
+        if not d <= 1e-7:
+            raise Violation("not-canonical", defect=d, centre=centre, **info)
+        e = max(e, d)
+    truncated = any(b < c for b, c in zip(bonds, chi))
+    return {"nt": L >= 3 and (truncated or len(set(dx["phys"])) > 1 or route in ("add_compress", "apply_compress")),
+            "cls": ["mpo" if op else "mps", "route=" + route, "form=" + str(form), "cap=" + case["cap"], "cutoff=" + case["cutoff"], f"L={L}",
+                    "truncated" if truncated else "untruncated"] + (["exact-checked"] if exact_expected else []) +
+                   (["inflated"] if case["inflate"] else []), "err": e}
+
+
 SUBCHECKS = [
     SubCheck("ctor", run_ctor, s_ctor, examples=(150, 3000), shards=(1, 4),
              rule="MatrixProductState/Operator(arrays, shape=any permutation) and from_fill_fn: einsum denotation, to_dense shape+value, "
@@ -1438,4 +1944,12 @@ SUBCHECKS = [
              rule="MatrixProductState.partial_trace_to_mpo(keep list|slice, rescale_sites, upper_ind_id) == Tr_rest|psi><psi| (rows=upper); nt: complex, L>=3, strict subset"),
     SubCheck("transpose_conj", run_transpose, s_transpose, examples=(150, 3000), shards=(1, 4),
              rule="partial_transpose (subset/single/all), H, conj, index-id swap, reindex_*_sites == dense transposes/conjugates (bitwise); nt: L>=3"),
+    SubCheck("compress_registry", run_registry, enum=enum_registry, exhaustive=True,
+             rule="the sampled method names equal the registered 1D + arbitrary-geometry dispatcher tables"),
+    SubCheck("compress_1d", run_compress, s_compress, examples=(300, 6000), shards=(3, 8),
+             rule="tensor_network_1d_compress x 17 1D methods + 6 forwarded AG names x input (MPS, MPO, MPO.MPS, MPO.MPO, MPO.MPO.MPS lazy) x sweep_reverse x canonize x cap (>=rank|below|None) x cutoff x normalize x equalize_norms x inplace: (i) exact when untruncated, (ii) cap, (iii) canonical centre by iso_defect, (iv) direct error bound; nt: L>=3 and (truncated or >=2 layers or site-dependent dims)"),
+    SubCheck("direct_bound", run_direct, s_direct, examples=(250, 5000), shards=(2, 6),
+             rule="method='direct' (dispatcher, function, gate_with_mpo) with caps below the rank and/or cutoffs in all 6 cutoff modes, both sweep directions, input scales 1e-6..1e5: distance <= sqrt(sum of discarded squared singular values of the input's unfoldings at the returned bond sizes)*(1+1e-9), cap, canonical form; nt: truncation happened"),
+    SubCheck("compress_flat", run_flat, s_flat, examples=(250, 5000), shards=(2, 6),
+             rule="MPS/MPO.compress(form None|left|right|flat|int), left_compress, right_compress, compress_site, add_*(compress=True), apply(compress=True) x cap x cutoff: exact when untruncated, cap, canonical centre; nt: L>=3 and (truncated or site-dependent dims or 2 layers)"),
 ]
